@@ -31,7 +31,7 @@ func vfC20ReadAll(t vfC20Fataler, q *qLogFile, c *vfC20Cursor, st *vfC20RevStats
 	vfC20Guard(t, what, func() (complaint string) {
 		lastStart := int64(-1)
 		for i := 0; i <= len(c.rev)+1; i++ {
-			before := q.position
+			before, startBefore, loaded := q.position, q.bufferStart, q.buffer != nil
 			line, err := q.ReadNext()
 			if msg := c.observe(line, err); msg != "" {
 				return msg
@@ -55,15 +55,24 @@ func vfC20ReadAll(t vfC20Fataler, q *qLogFile, c *vfC20Cursor, st *vfC20RevStats
 				st.reinits++
 				lastStart = start
 			}
+			long := len(line) > vfC20Limit/2
+			if loaded && startBefore != 0 && start != startBefore && long {
+				// the window was moved for this line: how far from the limit
+				// did the line end in the old window?
+				if d := int(before-startBefore) - vfC20Limit; d >= -4 && d < 0 {
+					st.atLimit[d]++
+					st.edgeLong++
+				}
+			}
 			if start == 0 {
 				continue
 			}
 			rel := int(before - start)
 			nl := rel - len(line) - 1
-			if len(line) > vfC20Limit/2 && (vfC20Abs(rel-vfC20Limit) <= vfC20Edge || vfC20Abs(nl) <= vfC20Edge) {
+			if long && (vfC20Abs(rel-vfC20Limit) <= vfC20Edge || vfC20Abs(nl) <= vfC20Edge) {
 				st.edgeLong++
 			}
-			if d := rel - vfC20Limit; d >= -4 && d <= 4 && len(line) > vfC20Limit/2 {
+			if d := rel - vfC20Limit; d >= 0 && d <= 4 && long {
 				st.atLimit[d]++
 			}
 			if nl == 0 {
